@@ -23,7 +23,7 @@ from pyvc.values import *
 from pyvc.builtins_model import unbe
 from .common import PACKET_CLASSES, PACKET_INLINE, PACKET_TRUTHY, ROLE_STUBS
 
-__all__ = []
+__all__ = ['extra_checks']       # c06.py has no extra_checks of its own: the bounded stand-in below becomes the sidecar's
 
 ASSUMPTIONS_HANDLERS = [
     'handlers: packet objects arrive from _recv_packet with the type byte consumed (_idx == 1) and a consistent '
@@ -233,20 +233,26 @@ kexinit_strict.tag = 'record'
 kexinit_strict.no_replay = True      # a region of the function cannot be started natively
 
 
-# a second KEXINIT while an exchange is running: checked in the first statement, before anything is parsed
+# a second KEXINIT while an exchange is running: checked before the parsing block starts
+def first_check_region(fn):
+    """the statements before the parsing block (first assignment): the `exchange already running` check"""
+    for i, st_ in enumerate(fn.body):
+        if isinstance(st_, ast.Assign):
+            return fn.body[:i]
+    raise Unsupported('_process_kexinit: no parsing block')
+
+
 kexinit_in_progress = finish(HSpec(
     'C06', 'connection', 'SSHConnection._process_kexinit', self_class='SSHConnection', params=PARAMS,
     classes=CLASSES, truthy=PACKET_TRUTHY, inline=KI_INLINE, stubs=KI_STUBS,
-    requires=pkt_wf, region=lambda fn: fn.body[:ki_cut0(fn)], tags=['split-qf'],
+    requires=pkt_wf, region=first_check_region,
     ensures=[('parsing-starts-only-when-no-exchange-is-running', lambda c: z3.Not(is_set(c, '_kex')))],
     always=[('KEXINIT-during-an-exchange-is-fatal-and-inert', lambda c: z3.Implies(is_set(c, '_kex'), z3.And(
-        z3.BoolVal(c.raised == 'ProtocolError'), pkt(c, new=True)['_idx'].z == 1,
-        phase_unchanged(c, '_client_kexinit', '_server_kexinit')))),
-        ('parsing-changes-no-phase-state', lambda c: phase_unchanged(c, '_client_kexinit', '_server_kexinit'))],
-    raises={'ProtocolError': lambda c: is_set(c, '_kex'), 'PacketDecodeError': lambda c: z3.Not(is_set(c, '_kex'))}))
-kexinit_in_progress.tag = 'parse'
+        z3.BoolVal(c.raised == 'ProtocolError' and not c.events('send_kexinit')), pkt(c, new=True)['_idx'].z == 1,
+        phase_unchanged(c, '_client_kexinit', '_server_kexinit'))))],
+    raises={'ProtocolError': lambda c: is_set(c, '_kex')}))
+kexinit_in_progress.tag = 'already-running'
 kexinit_in_progress.no_replay = True
-kexinit_in_progress.feasible_timeout_ms = 300
 
 
 # ------------------------------------------------------------------------------------------------ NEWKEYS
@@ -495,3 +501,23 @@ if _parent is not None and hasattr(_parent, 'ASSUMPTIONS'):
     for _a in ASSUMPTIONS_HANDLERS:
         if _a not in _parent.ASSUMPTIONS:
             _parent.ASSUMPTIONS.append(_a)
+
+
+def extra_checks(tier, seed):
+    """Bounded native stand-in (NOT counted as proof) for the strict-kex first-packet rule: the region contract of
+    _process_kexinit cannot be replayed natively, specs/c06_native.py runs the real function over the finite grid of
+    role x marker x first-exchange x receive-keys x sequence-number x strict-before and supplies failing inputs."""
+    import json
+    import os
+    import subprocess
+    from pyvc import extract
+    name = 'C06.bounded#process_kexinit-strict-kex-first-packet(native, 64-case grid)'
+    script = os.path.join(os.path.dirname(os.path.dirname(os.path.abspath(__file__))), 'specs', 'c06_native.py')
+    try:
+        p = subprocess.run(['/venv/bin/python', script], capture_output=True, text=True,
+                           env=dict(os.environ, PYTHONPATH=extract.REPO), timeout=120)
+        out = json.loads(p.stdout)
+        b = {'name': name, 'inputs': out['cases'], 'violations': out['violations']}
+    except Exception as e:      # harness trouble is never a verdict
+        b = {'name': name, 'inputs': 0, 'violations': [], 'error': repr(e)}
+    return {'bounded': [b], 'lemmas': []}
